@@ -30,6 +30,9 @@ pub struct GenCfg {
     pub min_max_bounds: bool,
     /// OIDs on modules
     pub oids: bool,
+    /// value references with negative values and DEFAULTs outside the range asn1rs's generated types can hold
+    /// (unconstrained INTEGER maps to u64: `pub const X: u64 = -5;` does not compile - recorded finding)
+    pub unrepresentable_ints: bool,
 }
 
 impl GenCfg {
@@ -49,10 +52,11 @@ impl GenCfg {
             extensions: true,
             min_max_bounds: true,
             oids: true,
+            unrepresentable_ints: false,
         }
     }
     pub fn front() -> GenCfg {
-        GenCfg { max_depth: 4, max_fanout: 6, large_sizes: true, ..GenCfg::codec() }
+        GenCfg { max_depth: 4, max_fanout: 6, large_sizes: true, unrepresentable_ints: true, ..GenCfg::codec() }
     }
 }
 
@@ -209,7 +213,7 @@ impl<'r> Gen<'r> {
     }
 
     fn maybe_ref(&mut self, v: i128) -> Bound {
-        if self.cfg.value_refs && self.rng.chance(1, 8) {
+        if self.cfg.value_refs && (v >= 0 || self.cfg.unrepresentable_ints) && self.rng.chance(1, 8) {
             self.value_ref_for(v, Type::int_unconstrained())
         } else {
             Bound::Lit(v)
@@ -340,6 +344,17 @@ impl<'r> Gen<'r> {
                     1 => hi,
                     _ => self.rng.range_i128(lo, hi.min(lo.saturating_add(100000))),
                 };
+                if !self.cfg.unrepresentable_ints {
+                    if let Some(c) = c {
+                        if matches!(c.lo, Bound::Ref(_)) || matches!(c.hi, Bound::Ref(_)) {
+                            return None;
+                        }
+                    }
+                    let (rl, rh) = crate::valgen::representable_range(c);
+                    if v < rl || v > rh {
+                        return None;
+                    }
+                }
                 Lit::Int(v)
             }
             Type::CharString { cs, size } if self.cfg.rich_defaults => {
@@ -376,7 +391,8 @@ impl<'r> Gen<'r> {
             }
             _ => return None,
         };
-        if self.cfg.value_refs && self.rng.chance(1, 8) && !matches!(lit, Lit::EnumItem(_)) {
+        let negative = matches!(lit, Lit::Int(i) if i < 0);
+        if self.cfg.value_refs && self.rng.chance(1, 8) && !matches!(lit, Lit::EnumItem(_)) && (!negative || self.cfg.unrepresentable_ints) {
             self.value_counter += 1;
             let name = format!("def-val{}", self.value_counter);
             let vt = match t {
@@ -421,7 +437,7 @@ impl<'r> Gen<'r> {
     }
 
     fn gen_leaf(&mut self) -> Type {
-        match self.rng.weighted(&[4, 1, 10, 3, 3, 6]) {
+        match self.rng.weighted(&[4, 2, 10, 3, 3, 6]) {
             0 => Type::Boolean,
             1 => Type::Null,
             2 => {
